@@ -123,3 +123,110 @@ func init() {
 		return 0
 	}
 }
+
+func init() {
+	tools["dump-emit"] = func(args []string) int {
+		r := loadRepo()
+		rg := findRegion(r)
+		if len(rg.problems) > 0 {
+			fmt.Println(rg.problems)
+			return 1
+		}
+		it := newInterp(r)
+		opts := modelOpts{Ast: true}
+		kind := "alt"
+		for _, a := range args {
+			switch a {
+			case "inline":
+				opts.Inline = true
+			case "switch":
+				opts.Switch = true
+			case "noast":
+				opts.Ast = false
+			default:
+				kind = a
+			}
+		}
+		m := newModel(it, opts)
+		var body *Obj
+		switch kind {
+		case "alt":
+			body = m.alt(m.opaqueChild(true, false), m.opaqueChild(true, false), m.opaqueChild(true, false))
+		case "seq":
+			body = m.seq(m.opaqueChild(true, false), m.char("a"), m.rng("b", "y"), m.dot(), m.str("xyz"))
+		case "star":
+			body = m.star(m.opaqueChild(true, false))
+		case "plus":
+			body = m.plus(m.opaqueChild(true, false))
+		case "query":
+			body = m.query(m.opaqueChild(true, false))
+		case "peek":
+			body = m.seq(m.peekFor(m.opaqueChild(true, false)), m.peekNot(m.opaqueChild(true, false)))
+		case "push":
+			body = m.seq(m.push(m.opaqueChild(true, false)), m.action("_ = text"))
+		case "name":
+			body = m.seq(m.name("A"), m.name("B"))
+		}
+		m.addRule("S", body, 1)
+		if kind == "name" {
+			m.addRule("A", m.opaqueChild(true, false), 1)
+			m.addRule("B", m.star(m.opaqueChild(true, false)), 2)
+		}
+		m.finish()
+		em := m.run(rg)
+		fmt.Println("err:", em.Err, "warnings:", em.Warnings, "contracts:", em.Contracts)
+		fmt.Println(em.Text)
+		return 0
+	}
+}
+
+func init() {
+	tools["dump-check"] = func(args []string) int {
+		r := loadRepo()
+		rg := findRegion(r)
+		ti := loadTemplate(r)
+		it := newInterp(r)
+		opts := modelOpts{Ast: true}
+		kind := "alt"
+		for _, a := range args {
+			switch a {
+			case "inline":
+				opts.Inline = true
+			case "switch":
+				opts.Switch = true
+			case "noast":
+				opts.Ast = false
+			default:
+				kind = a
+			}
+		}
+		m := newModel(it, opts)
+		var body *Obj
+		switch kind {
+		case "alt":
+			body = m.alt(m.opaqueChild(true, false), m.opaqueChild(true, false), m.opaqueChild(true, false))
+		case "seq":
+			body = m.seq(m.opaqueChild(true, false), m.char("a"), m.rng("b", "y"), m.dot())
+		case "star":
+			body = m.star(m.opaqueChild(true, false))
+		case "plus":
+			body = m.plus(m.opaqueChild(true, false))
+		case "query":
+			body = m.query(m.opaqueChild(true, false))
+		case "peek":
+			body = m.seq(m.peekFor(m.opaqueChild(true, false)), m.peekNot(m.opaqueChild(true, false)))
+		case "push":
+			body = m.seq(m.push(m.opaqueChild(true, false)), m.action("__act0()"))
+		}
+		m.addRule("S", body, 1)
+		m.addRule("Aux", m.char("z"), 2)
+		m.finish()
+		tv := checkModel(r, ti, rg, m, 0, kind)
+		fmt.Println("ok:", tv.ok(), "outcomes:", tv.NOut)
+		fmt.Println(tv.detail())
+		if !tv.ok() {
+			fmt.Println(tv.replay())
+		}
+		return 0
+	}
+}
